@@ -234,6 +234,11 @@ impl<JT: JobContextTransition + Send + Sync> OptionalBreakState<JT> {
             .routes
             .iter()
             .flat_map(|route_ctx| {
+                // NOTE a tour which serves nothing but breaks should not be kept: take its breaks out
+                let has_only_breaks = route_ctx.route().tour.jobs().all(|job| {
+                    job.as_single().is_some_and(|single| (self.break_fns.is_break_single_fn)(single))
+                });
+
                 route_ctx
                     .route()
                     .tour
@@ -263,7 +268,7 @@ impl<JT: JobContextTransition + Send + Sync> OptionalBreakState<JT> {
                             || !can_be_scheduled(route_ctx, break_single, &self.break_fns.policy_fn);
                         let is_ovrp_last = route_ctx.route().tour.end().is_some_and(|end| std::ptr::eq(activity, end));
 
-                        if is_orphan || is_not_on_time || is_ovrp_last {
+                        if is_orphan || is_not_on_time || is_ovrp_last || has_only_breaks {
                             breaks.insert(Job::Single(break_single.clone()));
                         }
 
